@@ -206,6 +206,7 @@ let run_case line =
       out id "min" (opt ser_dfa mn);
       let e1 = (match mn with Some d -> expr_from c d | None -> None) in
       out id "expr" (opt ser_expr e1);
+      out id "sc_ok" (if (not (c.f_no_start && c.f_no_end)) || sc_admissible c sc then "1" else "0");
       let fe = final_expr c cr sc in
       out id "final" (opt ser_expr fe);
       out id "out" (opt (fun e -> ser_str (regexp_str is_digit_engine c e)) fe);
